@@ -90,11 +90,17 @@ func isBoolType(t types.Type) bool {
 type useObserver struct {
 	fn    *ssa.Function
 	sinks map[ssa.Instruction]bool
+	calls map[*ssa.Call]string // calls that hand the node to another in-module function
 }
 
 func (o *useObserver) Visit(eng *Engine, fn *ssa.Function, in ssa.Instruction, env *Env) {
-	if fn == o.fn && len(eng.stack) == 1 && o.sinks[in] {
-		env.marks["use"] = true
+	if fn == o.fn && len(eng.stack) == 1 {
+		if o.sinks[in] {
+			env.marks["use"] = true
+		}
+		if c, ok := in.(*ssa.Call); ok && o.calls[c] != "" {
+			env.marks["call:"+o.calls[c]] = true
+		}
 	}
 }
 
@@ -292,6 +298,8 @@ func rulesExpansion(p *Prog, r *Report, eng *Engine) {
 	r.Extra["expansion_cluster"] = clusterNames
 
 	// ---- X1
+	dispatch := map[string]map[string]string{} // case -> function -> callees the node is handed to
+	dispatchSeen := map[string]map[string]bool{}
 	nodeShapes := eng.shapesOf(node)
 	for _, f := range cluster {
 		if f.Parent() != nil {
@@ -322,7 +330,22 @@ func rulesExpansion(p *Prog, r *Report, eng *Engine) {
 					copy(args, ent)
 				}
 				args[pi] = CF{K: KPtr, Nil: nonNil, Shapes: []int{si}}
-				obs := &useObserver{fn: f, sinks: sinks}
+				obs := &useObserver{fn: f, sinks: sinks, calls: map[*ssa.Call]string{}}
+				for _, b := range f.Blocks {
+					for _, in := range b.Instrs {
+						if c, ok := in.(*ssa.Call); ok {
+							callee := c.Call.StaticCallee()
+							if callee == nil || !p.InModule(callee) || isBoolType(c.Type()) {
+								continue
+							}
+							for _, a := range c.Call.Args {
+								if a == ssa.Value(prm) {
+									obs.calls[c] = callee.Name()
+								}
+							}
+						}
+					}
+				}
 				outs := eng.RunStandalone(f, args, obs)
 				cases := map[string][2]int{}
 				for _, o := range outs {
@@ -334,6 +357,33 @@ func rulesExpansion(p *Prog, r *Report, eng *Engine) {
 						c[1]++
 					}
 					cases[d] = c
+					for m := range o.Env.marks {
+						if strings.HasPrefix(m, "call:") {
+							pretty := d
+							for k, n := range names {
+								pretty = strings.ReplaceAll(pretty, "role="+k, "role="+n)
+							}
+							if dispatch[pretty] == nil {
+								dispatch[pretty] = map[string]string{}
+							}
+							prev := dispatch[pretty][p.shortKey(f)]
+							if !strings.Contains(prev, strings.TrimPrefix(m, "call:")) {
+								dispatch[pretty][p.shortKey(f)] = strings.TrimSpace(prev + " " + strings.TrimPrefix(m, "call:"))
+							}
+						}
+					}
+					{
+						pretty := d
+						for k, n := range names {
+							pretty = strings.ReplaceAll(pretty, "role="+k, "role="+n)
+						}
+						if dispatch[pretty] == nil {
+							dispatch[pretty] = map[string]string{}
+						}
+						if _, ok := dispatch[pretty][p.shortKey(f)]; !ok {
+							dispatch[pretty][p.shortKey(f)] = ""
+						}
+					}
 				}
 				var ds []string
 				for d := range cases {
@@ -359,6 +409,9 @@ func rulesExpansion(p *Prog, r *Report, eng *Engine) {
 			}
 		}
 	}
+
+	r.Extra["dispatch_by_case"] = dispatch
+	_ = dispatchSeen
 
 	// ---- X2
 	for _, f := range cluster {
